@@ -64,30 +64,48 @@ def grid_cases(ctx):
     for a in F:
         for b in F:
             for op in ("+", "-", "*", "/", "^", "<", "<=", ">", ">=", "==", "!="):
-                for f in ("vv", "ll", "vl", "lv"):
-                    la, lb = f in ("ll", "lv"), f in ("ll", "vl")
+                for f in ("vv", "ll", "vl", "lv", "xx", "xl", "lx"):
+                    la, lb = f in ("ll", "lv", "lx"), f in ("ll", "vl", "xl")
                     if (la and isinstance(a, str)) or (lb and isinstance(b, str)):
                         continue
-                    e = "%s %s %s" % (c16.spell(a, la), op, c16.spell(b, lb))
+                    pre = ""
+                    A, B = c16.spell(a, la), c16.spell(b, lb)
+                    if f[0] == "x":  # operand is a local variable (what the LOAD-fusing peephole rules match)
+                        pre += "let a = %s\n" % A
+                        A = "a"
+                    if f[1] == "x":
+                        pre += "let b = %s\n" % B
+                        B = "b"
+                    e = "%s %s %s" % (A, op, B)
                     out.append(("float %s %s %s" % (op, c16.key_of(a), c16.key_of(b)), f,
-                                Case("float op=%s form=%s a=%s b=%s" % (op, f, c16.key_of(a), c16.key_of(b)), "println(%s)" % e, ("any",), c16.DECLS)))
+                                Case("float op=%s form=%s a=%s b=%s" % (op, f, c16.key_of(a), c16.key_of(b)), pre + "println(%s)" % e, ("any",), c16.DECLS)))
     S = ["", "a", "ab", "b", "é"]
     from checks.abra import strlit
     for a in S:
         for b in S:
             for op in ("..", "==", "<", ">="):
-                for f in ("vv", "ll", "vl", "lv"):
+                for f in ("vv", "ll", "vl", "lv", "xx", "xl", "lx"):
                     A = strlit(a) if f[0] == "l" else "verif_ids(%s)" % strlit(a)
                     B = strlit(b) if f[1] == "l" else "verif_ids(%s)" % strlit(b)
-                    out.append(("str %s %r %r" % (op, a, b), f, Case("str op=%s form=%s a=%r b=%r" % (op, f, a, b), "println(%s %s %s)" % (A, op, B), ("any",),
+                    pre = ""
+                    if f[0] == "x":
+                        pre, A = pre + "let a = %s\n" % A, "a"
+                    if f[1] == "x":
+                        pre, B = pre + "let b = %s\n" % B, "b"
+                    out.append(("str %s %r %r" % (op, a, b), f, Case("str op=%s form=%s a=%r b=%r" % (op, f, a, b), pre + "println(%s %s %s)" % (A, op, B), ("any",),
                                                                    "fn verif_ids(x: string) -> string = x\n")))
     for a in (True, False):
         for b in (True, False):
             for op in ("and", "or", "==", "!=", "<", ">="):
-                for f in ("vv", "ll", "vl", "lv"):
+                for f in ("vv", "ll", "vl", "lv", "xx", "xl", "lx"):
                     A = str(a).lower() if f[0] == "l" else "verif_idb(%s)" % str(a).lower()
                     B = str(b).lower() if f[1] == "l" else "verif_idb(%s)" % str(b).lower()
-                    out.append(("bool %s %s %s" % (op, a, b), f, Case("bool op=%s form=%s a=%s b=%s" % (op, f, a, b), "println(%s %s %s)" % (A, op, B), ("any",),
+                    pre = ""
+                    if f[0] == "x":
+                        pre, A = pre + "let a = %s\n" % A, "a"
+                    if f[1] == "x":
+                        pre, B = pre + "let b = %s\n" % B, "b"
+                    out.append(("bool %s %s %s" % (op, a, b), f, Case("bool op=%s form=%s a=%s b=%s" % (op, f, a, b), pre + "println(%s %s %s)" % (A, op, B), ("any",),
                                                                     "fn verif_idb(x: bool) -> bool = x\n")))
     return out
 
